@@ -84,12 +84,14 @@ package cbe
 //@   requires 0 <= count
 //@   modifies _this.buffer, alloc
 //@   ensures pos == old(pos) + uint64(count) && _this.bytesRead == old(_this.bytesRead) + uint64(count) && len(_this.buffer) >= count
+//@   ensures pos >= old(pos) && uint64(count) <= inLen - old(pos) && count <= 0x10000000000
 //@   ensures forall i uint64 :: i < uint64(count) ==> _this.buffer[i] == in[old(pos)+i]
 //@   xensures inLen - old(pos) < uint64(count) || rfailed || old(_this.bytesRead) + uint64(count) > DocLimit(_this) || count > 0x8000000000
 //@   loop 0 modifies pos, rfailed, zeroReads, _this.reader.pendingErr, _this.bytesRead, mem(_this.buffer)
-//@   loop 0 invariant ReaderOK(_this) && len(_this.buffer) >= count && 0 <= len(dst) && len(dst) <= count && dst.arr == _this.buffer.arr
+//@   loop 0 invariant ReaderOK(_this) && count <= 0x10000000000 && len(_this.buffer) >= count && 0 <= len(dst) && len(dst) <= count && dst.arr == _this.buffer.arr
 //@   loop 0 invariant _this.buffer.off <= dst.off && dst.off + len(dst) == _this.buffer.off + count && dst.off + cap(dst) == _this.buffer.off + cap(_this.buffer)
 //@   loop 0 invariant pos + uint64(_this.buffer.off) == old(pos) + uint64(dst.off) && _this.bytesRead + uint64(_this.buffer.off) == old(_this.bytesRead) + uint64(dst.off)
+//@   loop 0 invariant pos + uint64(len(dst)) == old(pos) + uint64(count) && _this.bytesRead + uint64(len(dst)) == old(_this.bytesRead) + uint64(count)
 //@   loop 0 invariant forall i uint64 :: i < uint64(count) && uint64(_this.buffer.off) + i < uint64(dst.off) ==> _this.buffer[i] == in[old(pos)+i]
 //@   loop 0 decreases len(dst)
 
@@ -98,6 +100,7 @@ package cbe
 //@   requires 0 <= byteCount
 //@   modifies _this.buffer, alloc
 //@   ensures pos == old(pos) + uint64(byteCount) && _this.bytesRead == old(_this.bytesRead) + uint64(byteCount)
+//@   ensures pos >= old(pos) && uint64(byteCount) <= inLen - old(pos) && byteCount <= 0x10000000000
 //@   ensures len(result) == byteCount && result.arr == _this.buffer.arr && result.off == _this.buffer.off
 //@   ensures forall i uint64 :: i < uint64(byteCount) ==> result[i] == in[old(pos)+i]
 //@   xensures inLen - old(pos) < uint64(byteCount) || rfailed || old(_this.bytesRead) + uint64(byteCount) > DocLimit(_this) || byteCount > 0x8000000000
